@@ -81,27 +81,60 @@ theorem validateDomains_error_class (target : MG Name) : ∀ (ds : List Domain) 
     · rename_i e he; cases h; exact validateDomain_error_class target d _ he
     · exact validateDomains_error_class target ds err h
 
-theorem validateCommon_error_class (target : MG Name) (ds : List Domain) (vs : List Var) (a b : Bool) (err : Err)
-    (h : validateCommon target ds vs a b = .error err) :
-    err = .invalidInput "ValueError" ∨ err = .invalidInput "NotImplementedError" ∨ err = .internal "KeyError" := by
+theorem ite_err_cases {c : Prop} [Decidable c] {e0 err : Err} {y : Except Err Unit}
+    (h : (if c then .error e0 else y) = .error err) : (c ∧ err = e0) ∨ (¬ c ∧ y = .error err) := by
+  split at h
+  · rename_i hc; cases h; exact Or.inl ⟨hc, rfl⟩
+  · rename_i hc; exact Or.inr ⟨hc, h⟩
+
+theorem validateCommon_error_class (target : MG Name) (ds : List Domain) (vs : List Var) (a sn b : Bool) (err : Err)
+    (h : validateCommon target ds vs a sn b = .error err) :
+    err = .invalidInput "ValueError" ∨ err = .invalidInput "NotImplementedError" ∨ err = .internal "KeyError" ∨
+      (sn = true ∧ err = .invalidInput "TypeError") := by
   unfold validateCommon vErr at h
-  repeat' split at h
-  all_goals first
-    | (cases h; exact Or.inl rfl)
-    | (cases h; exact Or.inr (Or.inl rfl))
-    | (rcases validateDomains_error_class target ds err h with h' | h'
-       · exact Or.inl h'
-       · exact Or.inr (Or.inr h'))
+  rcases ite_err_cases h with ⟨_, rfl⟩ | ⟨_, h⟩
+  · exact Or.inl rfl
+  rcases ite_err_cases h with ⟨_, rfl⟩ | ⟨_, h⟩
+  · exact Or.inr (Or.inl rfl)
+  rcases ite_err_cases h with ⟨_, rfl⟩ | ⟨_, h⟩
+  · exact Or.inl rfl
+  rcases ite_err_cases h with ⟨hsn, rfl⟩ | ⟨_, h⟩
+  · exact Or.inr (Or.inr (Or.inr ⟨hsn, rfl⟩))
+  rcases ite_err_cases h with ⟨_, rfl⟩ | ⟨_, h⟩
+  · exact Or.inl rfl
+  rcases ite_err_cases h with ⟨_, rfl⟩ | ⟨_, h⟩
+  · exact Or.inl rfl
+  rcases ite_err_cases h with ⟨_, rfl⟩ | ⟨_, h⟩
+  · exact Or.inl rfl
+  rcases ite_err_cases h with ⟨_, rfl⟩ | ⟨_, h⟩
+  · exact Or.inl rfl
+  rcases ite_err_cases h with ⟨_, rfl⟩ | ⟨_, h⟩
+  · exact Or.inl rfl
+  rcases ite_err_cases h with ⟨_, rfl⟩ | ⟨_, h⟩
+  · exact Or.inl rfl
+  rcases ite_err_cases h with ⟨_, rfl⟩ | ⟨_, h⟩
+  · exact Or.inl rfl
+  rcases ite_err_cases h with ⟨_, rfl⟩ | ⟨_, h⟩
+  · exact Or.inl rfl
+  rcases validateDomains_error_class target ds err h with h' | h'
+  · exact Or.inl h'
+  · exact Or.inr (Or.inr (Or.inl h'))
 
 /-- **The unconditional validator rejects with the documented classes only** (`KeyError` is the `node_to_index` lookup
-of `_valid_topo_list`; it is unreachable for graphs built by `from_edges`, where every edge endpoint is a node). -/
+of `_valid_topo_list`; it is unreachable for graphs built by `from_edges`, where every edge endpoint is a node;
+`TypeError` is check 6.5, a valueless self-intervened variable — `fix:` 333fa44). -/
 theorem validateU_error_class (target : MG Name) (ds : List Domain) (e : Event) (err : Err)
     (h : validateU target ds e = .error err) :
-    err = .invalidInput "ValueError" ∨ err = .invalidInput "NotImplementedError" ∨ err = .internal "KeyError" := by
+    err = .invalidInput "TypeError" ∨ err = .invalidInput "ValueError" ∨ err = .invalidInput "NotImplementedError" ∨
+      err = .internal "KeyError" := by
   unfold validateU vErr at h
   split at h
-  · cases h; exact Or.inl rfl
-  · exact validateCommon_error_class _ _ _ _ _ _ h
+  · cases h; exact Or.inr (Or.inl rfl)
+  · rcases validateCommon_error_class _ _ _ _ _ _ _ h with h' | h' | h' | ⟨_, h'⟩
+    · exact Or.inr (Or.inl h')
+    · exact Or.inr (Or.inr (Or.inl h'))
+    · exact Or.inr (Or.inr (Or.inr h'))
+    · exact Or.inl h'
 
 /-- **The conditional validator**: additionally `TypeError` for a variable without a value (the strict conversion). -/
 theorem validateC_error_class (target : MG Name) (ds : List Domain) (o c : Event) (err : Err)
@@ -115,40 +148,51 @@ theorem validateC_error_class (target : MG Name) (ds : List Domain) (o c : Event
     · cases h; exact Or.inr (Or.inl rfl)
     · split at h
       · cases h; exact Or.inr (Or.inl rfl)
-      · exact Or.inr (validateCommon_error_class _ _ _ _ _ _ h)
+      · rcases validateCommon_error_class _ _ _ _ _ _ _ h with h' | h' | h' | ⟨hf, _⟩
+        · exact Or.inr (Or.inl h')
+        · exact Or.inr (Or.inr (Or.inl h'))
+        · exact Or.inr (Or.inr (Or.inr h'))
+        · cases hf
 
 /-- what an accepted unconditional input looks like (the part of the contract the algorithms rely on): a non-empty event
-with at least one value, over variables of a non-empty acyclic target graph without selection nodes, at least one domain -/
+with at least one value, over variables of a non-empty acyclic target graph without selection nodes, at least one domain;
+every self-intervened variable has a value (check 6.5, `fix:` 333fa44: `validateU_selfNone`) -/
 theorem validateU_accepts (target : MG Name) (ds : List Domain) (e : Event) (h : validateU target ds e = .ok ()) :
     e ≠ [] ∧ target.nodes ≠ [] ∧ ds ≠ [] ∧ (∃ p ∈ e, p.2.isSome = true) ∧ target.isAcyclic = true ∧
     (∀ v ∈ target.nodes, Trso.isTnode v = false) ∧ (∀ p ∈ e, p.1.name ∈ target.nodes) ∧
     (∀ d ∈ ds, seteq' target.nodes (regular d.graph) = true) := by
-  unfold validateU at h
-  split at h
-  · cases h
-  · rename_i he
-    unfold validateCommon vErr at h
-    repeat' split at h
-    all_goals try cases h
-    rename_i h1 h2 h3 h4 h5 h6 h7 h8 h9 h10 h11
-    refine ⟨by simpa using he, by simpa using h1, by simpa using h4, ?_, by simpa using h8, ?_, ?_, ?_⟩
-    · have : ¬ (e.all fun p => p.2.isNone) = true := h3
-      simp only [List.all_eq_true, not_forall] at this
-      obtain ⟨p, hp, hpn⟩ := this
-      exact ⟨p, hp, by cases hv : p.2 <;> simp_all⟩
-    · intro v hv
-      have : ¬ target.nodes.any Trso.isTnode = true := h7
-      simp only [List.any_eq_true, not_exists, not_and] at this
-      simpa using this v hv
-    · intro p hp
-      have : ¬ (e.map (·.1)).any (fun v => decide (v.name ∉ target.nodes)) = true := h10
-      simp only [List.any_eq_true, not_exists, not_and, List.mem_map] at this
-      have := this p.1 ⟨p, hp, rfl⟩
-      simpa using this
-    · intro d hd
-      have : ¬ ds.any (fun d => !seteq' target.nodes (regular d.graph)) = true := h9
-      simp only [List.any_eq_true, not_exists, not_and] at this
-      simpa using this d hd
+  unfold validateU vErr at h
+  obtain ⟨he, h⟩ := ite_error_ok h
+  unfold validateCommon vErr at h
+  obtain ⟨h1, h⟩ := ite_error_ok h
+  obtain ⟨_, h⟩ := ite_error_ok h
+  obtain ⟨h3, h⟩ := ite_error_ok h
+  obtain ⟨_, h⟩ := ite_error_ok h
+  obtain ⟨h4, h⟩ := ite_error_ok h
+  obtain ⟨_, h⟩ := ite_error_ok h
+  obtain ⟨_, h⟩ := ite_error_ok h
+  obtain ⟨h7, h⟩ := ite_error_ok h
+  obtain ⟨h8, h⟩ := ite_error_ok h
+  obtain ⟨h9, h⟩ := ite_error_ok h
+  obtain ⟨h10, h⟩ := ite_error_ok h
+  refine ⟨by simpa using he, by simpa using h1, by simpa using h4, ?_, by simpa using h8, ?_, ?_, ?_⟩
+  · have : ¬ (e.all fun p => p.2.isNone) = true := h3
+    simp only [List.all_eq_true, not_forall] at this
+    obtain ⟨p, hp, hpn⟩ := this
+    exact ⟨p, hp, by cases hv : p.2 <;> simp_all⟩
+  · intro v hv
+    have : ¬ target.nodes.any Trso.isTnode = true := h7
+    simp only [List.any_eq_true, not_exists, not_and] at this
+    simpa using this v hv
+  · intro p hp
+    have : ¬ (e.map (·.1)).any (fun v => decide (v.name ∉ target.nodes)) = true := h10
+    simp only [List.any_eq_true, not_exists, not_and, List.mem_map] at this
+    have := this p.1 ⟨p, hp, rfl⟩
+    simpa using this
+  · intro d hd
+    have : ¬ ds.any (fun d => !seteq' target.nodes (regular d.graph)) = true := h9
+    simp only [List.any_eq_true, not_exists, not_and] at this
+    simpa using this d hd
 
 /-- the conditional procedure only accepts queries in which every outcome and condition has a value -/
 theorem validateC_strict (target : MG Name) (ds : List Domain) (o c : Event) (h : validateC target ds o c = .ok ()) :
@@ -242,14 +286,18 @@ theorem ctfTR_trichotomy (target : MG Name) (ds : List Domain) (o c : Event) (hv
     rw [hk, ctfTR_invalid_iff, hv] at h
     cases h
 
--- OPEN: ctf_no_internal_error
+-- OPEN: ctf_no_internal_error (no hypothesis about the domain graphs)
 --   theorem ctf_no_internal_error (hv : validateU target ds e = .ok ()) (hwf : target.WF ∧ ∀ d ∈ ds, d.graph.WF) :
---       ∀ err, ctfTRu target ds e ≠ .error err          (and the same for ctfTR with api.py's `derive` / `line4`)
---   FALSE of the current code: SIMPLIFY raises TypeError on events with a valueless or self-intervened variable, and
---   Algorithm 3 raises ValueError / KeyError from the event it derives itself and from its final checks (known findings
---   crash:simplify-typeerror, crash:ctfTR-derived-event-rejected, crash:ctfTR-final-check; witnesses in the corpus).
---   PROVED for Algorithm 2 outside the crash class and for selection diagrams that agree with the target graph:
---   §5 `ctfTRu_no_internal_error_partial`.  Still open: Algorithm 3 (`derive` / `line4` are parameters of the model).
+--       ∀ err, ctfTRu target ds e ≠ .error err          (and the same for ctfTR)
+--   PROVED for every validated input whose selection diagrams agree with the target graph (`DomainsAgree`):
+--   §5 `ctfTRu_no_internal_error`, §6 `ctfTR_no_internal_error` — the crash classes of SIMPLIFY and of Algorithm 3 are
+--   FIXED in the code (repo c8cad49, 333fa44, f335599; former findings crash:simplify-typeerror,
+--   crash:ctfTR-derived-event-rejected, crash:ctfTR-final-check; their witnesses are regression cases in corpus/C09).
+--   FALSE without `DomainsAgree`: Algorithm 4 raises `ValueError` when a source domain's graph lacks a bidirected edge of
+--   the target between two variables of one ctf-factor (open finding crash:sigmaTR-district-split, witness `w1` in §5).
+--   Not repaired: the validator cannot reject such domain graphs (the pinned suite uses them:
+--   test_transport_unconditional_counterfactual_query_line_5, test_transport_conditional_counterfactual_query_7), and
+--   treating the domain as unusable in Algorithm 4 would turn an inconsistent input into a silent FAIL.
 
 /-! ## 3. Zero only for impossible events -/
 
@@ -406,16 +454,25 @@ theorem transportFactors_all (ds : List Domain) : ∀ (fs : List Event) (qs : Li
 /-! ## 5. No other error outside the known crash classes -/
 
 open Trso (isTnode nsort) in
-/-- **SIMPLIFY raises only inside the crash class** `reflexive ∧ has_none` (harness key `crash:simplify-typeerror`):
-on a graph built by `from_edges`, for event variables that are nodes, of which the plain ones carry no star, with
-duplicate-free subscript lists. -/
+/-- **SIMPLIFY never raises on an event in which every self-intervened variable has a value** (after `fix:` c8cad49;
+the hypothesis is what check 6.5 of the validator establishes, `fix:` 333fa44 / `validateU_selfNone`): on a graph built
+by `from_edges`, for event variables that are nodes, of which the plain ones carry no star, with duplicate-free subscript
+lists.  Before the two fixes SIMPLIFY raised `TypeError` on the class `SimplifyRisk` (former finding
+`crash:simplify-typeerror`). -/
+theorem simplify_no_error (g : MG Name) (hg : g.WF) (e : Event)
+    (hnodes : ∀ p ∈ e, p.1.name ∈ g.nodes) (hvalid : ∀ p ∈ e, validEventVar p.1 = true)
+    (hnd : ∀ p ∈ e, p.1.ivs.Nodup) (hself : ∀ p ∈ e, selfIntervened p.1 = true → p.2 ≠ none) :
+    ∃ r, simplify g e = .ok r :=
+  simplify_total g hg e hnodes hvalid hnd hself
+
+/-- in particular outside the harness's former class `reflexive ∧ has_none` … -/
 theorem simplify_no_error_outside_class (g : MG Name) (hg : g.WF) (e : Event)
     (hnodes : ∀ p ∈ e, p.1.name ∈ g.nodes) (hvalid : ∀ p ∈ e, validEventVar p.1 = true)
     (hnd : ∀ p ∈ e, p.1.ivs.Nodup) (hcls : CrashClassU e = false) : ∃ r, simplify g e = .ok r :=
   simplify_total_of_class g hg e hnodes hvalid hnd hcls
 
-/-- the same for the smaller class on which the model of SIMPLIFY actually raises: a self-intervened `Y_y` together with
-a VALUELESS variable named `Y` (`Y_y` itself, the plain `Y`, any `Y_x`) -/
+/-- … and outside the smaller former class: a self-intervened `Y_y` together with a VALUELESS variable named `Y`
+(`Y_y` itself, the plain `Y`, any `Y_x`) -/
 theorem simplify_no_error_outside_risk (g : MG Name) (hg : g.WF) (e : Event)
     (hnodes : ∀ p ∈ e, p.1.name ∈ g.nodes) (hvalid : ∀ p ∈ e, validEventVar p.1 = true)
     (hnd : ∀ p ∈ e, p.1.ivs.Nodup) (hrisk : SimplifyRisk e = false) : ∃ r, simplify g e = .ok r :=
@@ -449,34 +506,30 @@ theorem transportFactors_no_error (ds : List Domain) (fs : List Event)
     ∃ r, transportFactors ds fs = .ok r :=
   transportFactors_total ds fs h
 
-/-- **C09, "never another error", Algorithm 2.**  An input accepted by the validator, on graphs built by `from_edges`,
-is answered or refused — `ctfTRu` returns no error at all — provided the event is outside the known crash class
-`reflexive ∧ has_none`, its variables are what `_event_from_counterfactuals` builds (`EventVarsPlain`), and the selection
-diagrams agree with the target graph on the bidirected edges between policy-free variables and have no bidirected edge
-at a selection node (`DomainsAgree`; the validator does not compare a domain graph with the target graph unless it is
-the target domain's own, and Algorithm 4 raises `ValueError` otherwise: witness `w1` below, confirmed on the Python). -/
-theorem ctfTRu_no_internal_error_partial (target : MG Name) (ds : List Domain) (e : Event)
+/-- **C09, "never another error", Algorithm 2 — for every validated event** (after `fix:` c8cad49 and 333fa44; before
+them SIMPLIFY raised `TypeError` after the validator had accepted an event with a self-intervened `Y_y` together with a
+valueless variable named `Y`: former finding `crash:simplify-typeerror`, former witness `w4` below).  An input accepted by
+the validator, on graphs built by `from_edges`, is answered or refused — `ctfTRu` returns no error at all — provided its
+variables are what `_event_from_counterfactuals` builds (`EventVarsPlain`), and the selection diagrams agree with the
+target graph on the bidirected edges between policy-free variables and have no bidirected edge at a selection node
+(`DomainsAgree`; the validator does not compare a domain graph with the target graph unless it is the target domain's
+own, and Algorithm 4 raises `ValueError` otherwise: open finding `crash:sigmaTR-district-split`, witness `w1` below,
+confirmed on the Python). -/
+theorem ctfTRu_no_internal_error (target : MG Name) (ds : List Domain) (e : Event)
     (hv : validateU target ds e = .ok ()) (hwf : target.WF) (hds : ∀ d ∈ ds, d.graph.WF)
-    (hcls : CrashClassU e = false) (hplain : EventVarsPlain e) (hdom : DomainsAgree target ds) :
+    (hplain : EventVarsPlain e) (hdom : DomainsAgree target ds) :
     ∀ err, ctfTRu target ds e ≠ .error err :=
-  ctfTRu_total_of_class target ds e hv hwf hds hcls hplain hdom
-
-/-- the same outside the smaller class `SimplifyRisk` -/
-theorem ctfTRu_no_internal_error_risk (target : MG Name) (ds : List Domain) (e : Event)
-    (hv : validateU target ds e = .ok ()) (hwf : target.WF) (hds : ∀ d ∈ ds, d.graph.WF)
-    (hrisk : SimplifyRisk e = false) (hplain : EventVarsPlain e) (hdom : DomainsAgree target ds) :
-    ∀ err, ctfTRu target ds e ≠ .error err :=
-  ctfTRu_total_of_risk target ds e hv hwf hds hrisk hplain hdom
+  ctfTRu_total target ds e hv hwf hds hplain hdom
 
 /-- with the trichotomy: such an input is answered or refused -/
 theorem ctfTRu_answers_or_fails (target : MG Name) (ds : List Domain) (e : Event)
     (hv : validateU target ds e = .ok ()) (hwf : target.WF) (hds : ∀ d ∈ ds, d.graph.WF)
-    (hcls : CrashClassU e = false) (hplain : EventVarsPlain e) (hdom : DomainsAgree target ds) :
+    (hplain : EventVarsPlain e) (hdom : DomainsAgree target ds) :
     (∃ a, ctfTRu target ds e = .ok (some a)) ∨ ctfTRu target ds e = .ok none := by
   rcases ctfTRu_trichotomy target ds e hv with h | h | ⟨err, herr, _⟩
   · exact Or.inl h
   · exact Or.inr h
-  · exact absurd herr (ctfTRu_no_internal_error_partial target ds e hv hwf hds hcls hplain hdom err)
+  · exact absurd herr (ctfTRu_no_internal_error target ds e hv hwf hds hplain hdom err)
 
 open Trso (isTnode nsort) in
 open TianSpec in
@@ -552,11 +605,11 @@ theorem fig2_domainsAgree : DomainsAgree fig2a [fig2dom1, fig2dom2] := by
 
 /-- the theorem applies to Example 4.2 -/
 example : ∀ err, ctfTRu fig2a [fig2dom1, fig2dom2] ex42 ≠ .error err :=
-  ctfTRu_no_internal_error_partial _ _ _ (by decide +kernel) (MG.wf_fromEdges _ _ _)
+  ctfTRu_no_internal_error _ _ _ (by decide +kernel) (MG.wf_fromEdges _ _ _)
     (by intro d hd
         simp only [List.mem_cons, List.not_mem_nil, or_false] at hd
         rcases hd with rfl | rfl <;> exact MG.wf_fromEdges _ _ _)
-    (by decide) (by unfold EventVarsPlain; decide) fig2_domainsAgree
+    (by unfold EventVarsPlain; decide) fig2_domainsAgree
 
 def isInternal (k : String) : Except Err (Option Answer) → Bool
   | .error (.internal k') => k == k'
@@ -578,20 +631,25 @@ example : CrashClassU w1Event = false := by decide
 example : EventVarsPlain w1Event := by unfold EventVarsPlain; decide
 example : isInternal "ValueError" (ctfTRu w1Target [w1Dom] w1Event) = true := by decide +kernel
 
-/-- `reflexive ∧ has_none` is wider than the class on which SIMPLIFY raises: `Y_y = y` with a valueless `X` is in the
-harness's class, outside `SimplifyRisk`, and answered; `Y_y = y` with a valueless `Y` raises (both as the Python). -/
+/-- former witnesses of the class `crash:simplify-typeerror` (regression cases in corpus/C09): `Y_y = y` with a valueless
+`X` was always answered; `Y_y = y` with a valueless `Y` (`w4`) raised `TypeError` from SIMPLIFY before `fix:` c8cad49 and
+is answered now; a VALUELESS `Y_y` (`w5`) raised the same `TypeError` after validation and is rejected by the validator
+now (`fix:` 333fa44) — all three as the Python. -/
 def w3Graph : MG Name := MG.fromEdges [1, 2] [] []
 def w3Dom : Domain :=
   { graph := MG.fromEdges [1, 2] [] [], topo := [1, 2], policy := [],
     pop := .prob (some (Var.plain 1001)) (TrDsl.plainVars [1, 2]) [] }
 def w3Event : Event := [({ name := 2, ivs := [⟨2, false⟩] }, some ⟨2, false⟩), ({ name := 1 }, none)]
 def w4Event : Event := [({ name := 2, ivs := [⟨2, false⟩] }, some ⟨2, false⟩), ({ name := 2 }, none)]
+def w5Event : Event := [({ name := 2, ivs := [⟨2, false⟩] }, none), ({ name := 1 }, some ⟨1, false⟩)]
 
 example : CrashClassU w3Event = true ∧ SimplifyRisk w3Event = false := by decide
 example : isAnswerWithEvent (ctfTRu w3Graph [w3Dom] w3Event) = true := by decide +kernel
 example : SimplifyRisk w4Event = true := by decide
 example : validateU w3Graph [w3Dom] w4Event = .ok () := by decide +kernel
-example : isInternal "TypeError" (ctfTRu w3Graph [w3Dom] w4Event) = true := by decide +kernel
+example : isAnswerWithEvent (ctfTRu w3Graph [w3Dom] w4Event) = true := by decide +kernel
+example : SimplifyRisk w5Event = true := by decide
+example : validateU w3Graph [w3Dom] w5Event = .error (.invalidInput "TypeError") := by decide +kernel
 
 /-! ## 6. Algorithm 3 (ctfTR): where Zero comes from, the shape of an answer, no other error
 
@@ -685,7 +743,7 @@ queries is excluded; the remaining hypotheses describe the INPUT FORMAT, not the
 * `PopsPlain`: the children of every domain's `PopulationProbability` are plain `Variable`s — the "joint distribution tag"
   `PP[π](V)` of C09's quantifier (for other distributions see `ctfTR_no_internal_error_anypop_partial` and `a3Shared`);
 * `DomainsAgree`: every selection diagram keeps the target's bidirected edges between non-policy variables and has no
-  bidirected edge at a selection node — the hypothesis Algorithm 2 needs (`ctfTRu_no_internal_error_partial`; without
+  bidirected edge at a selection node — the hypothesis Algorithm 2 needs (`ctfTRu_no_internal_error`; without
   it Algorithm 4 raises `ValueError`: open finding `crash:sigmaTR-district-split`, witness `w1` above).
 What changed in the proof: every outcome is found under its lookup key (`Ctf.ancestralSetRoot_mem`: `‖W_t‖` of the graph
 without the edges out of the conditioned ancestors IS the member of `An(W_t)` that stands for `W_t`;
